@@ -158,6 +158,14 @@ Lemma nice_cdu rp : nice (cdu_rev rp).
 Proof. induction rp as [|x rp IH]; cbn [cdu_rev]; nice_tac; auto. Qed.
 #[global] Hint Resolve nice_cdu : nicedb.
 
+Lemma nice_cdd fuel : forall p, nice (cdd fuel p).
+Proof. induction fuel as [|f IH]; intros p; cbn [cdd]; nice_tac; auto. Qed.
+#[global] Hint Resolve nice_cdd : nicedb.
+
+Lemma nice_clean_dirs_down p : nice (clean_dirs_down p).
+Proof. unfold clean_dirs_down. nice_tac. Qed.
+#[global] Hint Resolve nice_clean_dirs_down : nicedb.
+
 Lemma nice_rm_all fuel : forall p, nice (rm_all fuel p).
 Proof. induction fuel as [|f IH]; intros p; cbn [rm_all]; nice_tac; auto. Qed.
 #[global] Hint Resolve nice_rm_all : nicedb.
@@ -230,6 +238,10 @@ Lemma nice_prep c : nice (prep c).
 Proof. unfold prep. nice_tac. Qed.
 #[global] Hint Resolve nice_prep : nicedb.
 
+Lemma nice_stage_object_declaration c i : nice (stage_object_declaration c i).
+Proof. unfold stage_object_declaration. nice_tac. Qed.
+#[global] Hint Resolve nice_stage_object_declaration : nicedb.
+
 Lemma nice_install c i : nice (install c i).
 Proof. unfold install. nice_tac. Qed.
 #[global] Hint Resolve nice_install : nicedb.
@@ -261,10 +273,6 @@ Proof. unfold commit. nice_tac. Qed.
 Lemma nice_get_or_create_staged c : nice (get_or_create_staged c).
 Proof. unfold get_or_create_staged. nice_tac. Qed.
 #[global] Hint Resolve nice_get_or_create_staged : nicedb.
-
-Lemma nice_stage_object_declaration c i : nice (stage_object_declaration c i).
-Proof. unfold stage_object_declaration. nice_tac. Qed.
-#[global] Hint Resolve nice_stage_object_declaration : nicedb.
 
 Lemma nice_upgrade_object c : nice (upgrade_object c).
 Proof. unfold upgrade_object. nice_tac. Qed.
@@ -407,6 +415,14 @@ Lemma FE_cda_down rp : forall n, FE (cda_down rp n).
 Proof. induction rp as [|x rp IH]; intros [|n]; cbn [cda_down]; fe_tac; auto. Qed.
 #[global] Hint Resolve FE_cda_down : fedb.
 
+Lemma FE_cdd fuel : forall p, FE (cdd fuel p).
+Proof. induction fuel as [|f IH]; intros p; cbn [cdd]; fe_tac; auto. Qed.
+#[global] Hint Resolve FE_cdd : fedb.
+
+Lemma FE_clean_dirs_down p : FE (clean_dirs_down p).
+Proof. unfold clean_dirs_down. fe_tac. Qed.
+#[global] Hint Resolve FE_clean_dirs_down : fedb.
+
 Lemma FE_cdu rp : FE (cdu_rev rp).
 Proof. induction rp as [|x rp IH]; cbn [cdu_rev]; fe_tac; auto. Qed.
 #[global] Hint Resolve FE_cdu : fedb.
@@ -466,6 +482,10 @@ Proof. unfold write_new_object. fe_tac. Qed.
 Lemma FE_write_new_version c i : FE (write_new_version c i).
 Proof. unfold write_new_version. fe_tac. Qed.
 #[global] Hint Resolve FE_write_new_version : fedb.
+
+Lemma FE_stage_object_declaration c i : FE (stage_object_declaration c i).
+Proof. unfold stage_object_declaration. fe_tac. Qed.
+#[global] Hint Resolve FE_stage_object_declaration : fedb.
 
 Lemma FE_prep c : FE (prep c).
 Proof. unfold prep. fe_tac. Qed.
